@@ -40,7 +40,7 @@ fn main() {
 
     g1!(
         f_map, f_filter, f_flat_map, f_filter_map, f_inspect, f_enumerate, f_scan, f_limit, f_unique,
-        f_chain_src, f_cross_singleton, f_bounded_count_cross, f_flat_unordered,
+        f_chain_src, f_cross_singleton, f_bounded_count_cross, f_bounded_fold_chain, f_bounded_reduce_chain, f_flat_unordered,
         f_tee_merge, f_partition_merge, f_fold, f_fold_comm, f_reduce, f_reduce_comm, f_count, f_max,
         f_min, f_first, f_last, f_collect_vec, f_sg_map, f_sg_filter, f_opt_unwrap_or, f_opt_map_or,
         f_threshold, f_join_half, f_anti_join, f_k_fold, f_k_reduce, f_k_entries_map, f_k_map_with_key,
